@@ -172,11 +172,138 @@ class VRLock:
         self.release()
 
 
+_MUT = {"append", "update", "pop", "setdefault", "add", "clear", "extend", "insert", "remove", "discard", "popitem", "move_to_end"}
+_WRITERS: set[tuple[str, str]] | None = None
+
+
+def shared_writers() -> set[tuple[str, str]]:
+    """(file, qualified function name) of EVERY function in the package that writes state shared between threads, found by an
+    AST scan of the current tree: `global` declarations; stores / deletes / mutating method calls / setattr on a module-level
+    name, on cls / klass / type(x) / x.__class__ / globals() / sys.modules, or on self.<NAME> where NAME is a class-body
+    attribute that no method rebinds on the instance; functions wrapped by a cache decorator. Lines of these functions are
+    scheduling points wherever they live, so a new lazily filled table gets explored without naming it here."""
+    global _WRITERS
+    if _WRITERS is not None:
+        return _WRITERS
+    import ast
+
+    trees = {}
+    class_names: set[str] = set()
+    inst_names: set[str] = set()
+    for dp, _, fns in os.walk(SQLGLOT):
+        for f in fns:
+            if f.endswith(".py"):
+                p = os.path.join(dp, f)
+                try:
+                    trees[p] = ast.parse(open(p, encoding="utf-8").read())
+                except SyntaxError:
+                    continue
+    for tree in trees.values():
+        for n in ast.walk(tree):
+            if isinstance(n, ast.ClassDef):
+                for st in n.body:
+                    tg = st.targets if isinstance(st, ast.Assign) else [st.target] if isinstance(st, ast.AnnAssign) else []
+                    class_names.update(x.id for x in tg if isinstance(x, ast.Name))
+            elif isinstance(n, (ast.Assign, ast.AnnAssign, ast.AugAssign)):
+                tg = n.targets if isinstance(n, ast.Assign) else [n.target]
+                for x in tg:
+                    if isinstance(x, ast.Attribute) and isinstance(x.value, ast.Name) and x.value.id == "self":
+                        inst_names.add(x.attr)
+    class_only = class_names - inst_names
+
+    def base(e):
+        while isinstance(e, (ast.Attribute, ast.Subscript)):
+            e = e.value
+        return e
+
+    out: set[tuple[str, str]] = set()
+    for p, tree in trees.items():
+        modnames: set[str] = set()
+        for n in tree.body:
+            if isinstance(n, (ast.Assign, ast.AnnAssign)):
+                for x in (n.targets if isinstance(n, ast.Assign) else [n.target]):
+                    if isinstance(x, ast.Name):
+                        modnames.add(x.id)
+            elif isinstance(n, ast.ClassDef):
+                modnames.add(n.name)
+
+        def shared_target(tgt, bound) -> bool:
+            b = base(tgt)
+            if isinstance(b, ast.Name):
+                if b.id in ("cls", "klass", "mcs"):
+                    return True
+                if b.id in modnames and b.id not in bound:
+                    return True
+                if b.id == "self":
+                    e = tgt
+                    while isinstance(e, (ast.Attribute, ast.Subscript)) and not (isinstance(e, ast.Attribute) and isinstance(e.value, ast.Name)):
+                        e = e.value
+                    # self.NAME[...] / self.NAME.attr / self.NAME.mutate() on a class-level table (plain `self.NAME = v` rebinding is instance-local)
+                    if isinstance(e, ast.Attribute) and e is not tgt and e.attr in class_only:
+                        return True
+                    if isinstance(tgt, ast.Attribute) and isinstance(tgt.value, ast.Attribute) and tgt.value.attr == "__class__":
+                        return True
+            if isinstance(b, ast.Call) and isinstance(b.func, ast.Name) and b.func.id in ("type", "globals", "vars"):
+                return True
+            if isinstance(b, ast.Name) and b.id == "sys":
+                return True
+            e = tgt
+            while isinstance(e, (ast.Attribute, ast.Subscript)):
+                if isinstance(e, ast.Attribute) and e.attr == "__class__":
+                    return True
+                e = e.value
+            return False
+
+        def visit(node, stack):
+            for ch in ast.iter_child_nodes(node):
+                if isinstance(ch, ast.ClassDef):
+                    visit(ch, stack + [ch.name])
+                elif isinstance(ch, (ast.FunctionDef, ast.AsyncFunctionDef)):
+                    qn = ".".join(stack + [ch.name])
+                    bound = {a.arg for a in ch.args.args + ch.args.kwonlyargs + ch.args.posonlyargs}
+                    bound |= {x.id for x in ast.walk(ch) if isinstance(x, ast.Name) and isinstance(x.ctx, ast.Store)}
+                    globs = {g for x in ast.walk(ch) if isinstance(x, ast.Global) for g in x.names}
+                    bound -= globs
+                    hit = bool(globs) or any("cache" in ast.unparse(d) for d in ch.decorator_list)
+                    for x in ast.walk(ch):
+                        if hit:
+                            break
+                        tg = []
+                        if isinstance(x, ast.Assign):
+                            tg = x.targets
+                        elif isinstance(x, (ast.AugAssign, ast.AnnAssign)):
+                            tg = [x.target]
+                        elif isinstance(x, ast.Delete):
+                            tg = x.targets
+                        for tgt in tg:
+                            for el in (tgt.elts if isinstance(tgt, (ast.Tuple, ast.List)) else [tgt]):
+                                if isinstance(el, (ast.Attribute, ast.Subscript)) and shared_target(el, bound):
+                                    hit = True
+                        if isinstance(x, ast.Call):
+                            if isinstance(x.func, ast.Attribute) and x.func.attr in _MUT and shared_target(x.func, bound):
+                                hit = True
+                            if isinstance(x.func, ast.Name) and x.func.id in ("setattr", "delattr") and x.args:
+                                a0 = x.args[0]
+                                if shared_target(ast.Attribute(value=a0, attr="_", ctx=ast.Store()), bound):
+                                    hit = True
+                    if hit:
+                        out.add((p, qn))
+                    visit(ch, stack + [ch.name, "<locals>"])
+                else:
+                    visit(ch, stack)
+
+        visit(tree, [])
+    _WRITERS = out
+    return out
+
+
 def selected(co) -> bool:
     """Scheduling points live in: every function of the two lazy-loading package modules; every method of the
     dialect metaclass and of Dialect; in generator.py the module-level functions (dispatch-table construction,
     whatever they are called) and Generator.__init__. Chosen structurally, so renames / extractions are followed."""
     fn = co.co_filename
+    if (fn, co.co_qualname) in shared_writers():
+        return True
     if co.co_name == "<module>" and fn in (SQLGLOT + "/optimizer/optimizer.py", SQLGLOT + "/optimizer/__init__.py"):
         return True  # top-level statements of lazily imported modules: another thread may see them half-initialised
     if fn not in SEL_FILES:
